@@ -65,7 +65,7 @@ Definition mobv_spec_ok (c : mobv_case) : bool :=
       | Panic _ => negb (int32_in (dexp base + 16))
       | Err _ => fail
       | Ok bs =>
-          negb fail &&
+          negb fail && (Z.of_nat (length bs) <=? merc_limit ver) &&      (* fits the length the plugin declares to libocr *)
           match merc_decode234 ver bs with
           | None => false
           | Some m =>
@@ -88,6 +88,10 @@ Definition mobv_spec_ok (c : mobv_case) : bool :=
       | Err _ => fail
       | Ok bs =>
           negb fail &&
+          (if (Z.of_nat (length (d1_blocks ds)) <=? RepoConstants.MaxAllowedBlocks) &&
+              forallb (fun b => (length (bhash b) <=? 32)%nat) (d1_blocks ds) &&
+              (length (match d1_cur_hash ds with Some hh => hh | None => [] end) <=? 32)%nat
+           then Z.of_nat (length bs) <=? merc_limit 1 else true) &&
           match merc_decode1 bs with
           | None => false
           | Some m =>
